@@ -5,6 +5,11 @@
 (* the patch-side clauses, what an independent observer (go/parser) saw in *)
 (* the input file and in the output: the imports, the names still used as  *)
 (* unresolved selector bases, and whether the code pattern was rewritten.  *)
+(* r.prior is the number of other files the same parsed patch was applied  *)
+(* to before this one and r.repeat the number of further applications of   *)
+(* this file that had to return the same bytes (an "unstable" error        *)
+(* otherwise): neither enters the verdict - what a file's result must be   *)
+(* does not depend on the past of the parsed patch (C14).                  *)
 (***************************************************************************)
 EXTENDS Imports, Json
 
@@ -34,6 +39,9 @@ Verdict(r) ==
          \* a metavariable bound by an import line stands for that import's name in the code pattern too:
          \* the same call through another name is not an instance
          \cup (IF r.decoy = "1" THEN {} ELSE {"C10_ImportNameBindsBody"})
+         \* ... and where the '+' code mentions it, the output says the name under which the file knows the package
+         \* (r.plusq; C03: a metavariable occurrence is replaced by what it stood for)
+         \cup (IF r.plusq = "1" THEN {} ELSE {"C03_PlusUnderCapturedName"})
          \cup (IF (~GuardsHold(s)) /\ out # SeqToSet(s.fimps) THEN {"C10_GuardFailedNoEffect"} ELSE {})
          \cup (IF GuardsHold(s) /\ changed THEN C11_Violations(s, out) ELSE {}))]
 
